@@ -45,7 +45,7 @@ const LETTERS: usize = 13;
 
 pub fn run(ctx: &mut Ctx) {
     let pki = Pki::new(&mut ctx.rng);
-    let mut mk = |ctx: &mut Ctx, id: u32, tag: &str| -> Hist {
+    let mk = |ctx: &mut Ctx, id: u32, tag: &str| -> Hist {
         let mut rng2: rand_chacha::ChaCha8Rng = rand::SeedableRng::seed_from_u64(ctx.rng.gen());
         let sim = Sim::new(id, &pki, &mut rng2, &DOCS, &["family_name"], TrustAnchorRegistry::default(), TrustAnchorRegistry::default());
         let mut h = Hist::start(ctx, sim, tag);
